@@ -41,6 +41,62 @@ type stEmu struct {
 
 func (c *stEmu) Define(api frontend.API) error { return nil }
 
+// nested arrays / slices with different lengths at consecutive levels
+type stMatrix struct {
+	M [2][3]frontend.Variable `gnark:",public"`
+	N [][]frontend.Variable
+	T [3][1][2]frontend.Variable
+	S frontend.Variable
+}
+
+func (c *stMatrix) Define(api frontend.API) error { return nil }
+
+type stBase struct {
+	B frontend.Variable
+}
+type stWithEmbedded struct {
+	stBase
+	Z frontend.Variable `gnark:",public"`
+}
+
+func (c *stWithEmbedded) Define(api frontend.API) error { return nil }
+
+func jsonRoundTrip(rep *Report, name string, asg, empty frontend.Circuit, q *big.Int) {
+	desc := map[string]interface{}{"static": name}
+	rep.Eval("static:"+name, true)
+	w, err := frontend.NewWitness(asg, q)
+	if err != nil {
+		rep.Fail("c07:static-witness", err.Error(), desc)
+		return
+	}
+	vec := vecToBig(w.Vector(), q)
+	sch, err := frontend.NewSchema(empty)
+	if err != nil {
+		rep.Fail("c07:static-schema:"+name, err.Error(), desc)
+		return
+	}
+	var js []byte
+	if p := catchPanic(func() { js, err = w.ToJSON(sch) }); p != "" {
+		rep.Fail("c07:json-panic:"+name, "ToJSON panicked: "+p, desc)
+		return
+	}
+	if err != nil {
+		rep.Fail("c07:json:"+name, "ToJSON: "+err.Error(), desc)
+		return
+	}
+	w2, _ := witness.New(q)
+	if p := catchPanic(func() { err = w2.FromJSON(sch, js) }); p != "" {
+		rep.Fail("c07:json-panic:"+name, "FromJSON panicked: "+p, desc)
+		return
+	}
+	if err != nil {
+		rep.Fail("c07:json:"+name, "FromJSON: "+err.Error()+" on "+string(js), desc)
+	} else if fmt.Sprint(vecToBig(w2.Vector(), q)) != fmt.Sprint(vec) {
+		rep.Fail("c07:json-roundtrip:"+name, fmt.Sprintf("JSON round trip changed the vector: %v -> %s -> %v", vec, js, vecToBig(w2.Vector(), q)), desc)
+	}
+	rep.Count("static:json-checked")
+}
+
 func limbsOf(v *big.Int, nb int, bits uint) []*big.Int {
 	out := make([]*big.Int, nb)
 	mask := new(big.Int).Sub(new(big.Int).Lsh(big.NewInt(1), bits), big.NewInt(1))
@@ -102,6 +158,29 @@ func runC07Static(rep *Report) {
 		rep.Fail("c07:json", "public ToJSON: "+err.Error(), desc)
 	}
 	rep.Count("static:json-checked")
+	// --- nested arrays with different dimensions, embedded structs
+	mk := func() *stMatrix {
+		m := &stMatrix{N: [][]frontend.Variable{make([]frontend.Variable, 3), make([]frontend.Variable, 3)}}
+		return m
+	}
+	ma := mk()
+	k := int64(10)
+	for i := 0; i < 2; i++ {
+		for j := 0; j < 3; j++ {
+			ma.M[i][j] = k
+			ma.N[i][j] = k + 100
+			k++
+		}
+	}
+	for i := 0; i < 3; i++ {
+		for j := 0; j < 2; j++ {
+			ma.T[i][0][j] = k + 200
+			k++
+		}
+	}
+	ma.S = 999
+	jsonRoundTrip(rep, "stMatrix", ma, mk(), q)
+	jsonRoundTrip(rep, "stWithEmbedded", &stWithEmbedded{stBase: stBase{B: 4}, Z: 5}, &stWithEmbedded{}, q)
 	// --- custom types with init hooks
 	v1, _ := new(big.Int).SetString("123456789abcdef0fedcba9876543210deadbeefcafebabe0123456789abcdef", 16)
 	v2 := big.NewInt(77)
